@@ -162,7 +162,8 @@ package silence
 //@   requires s != nil && storeInv(s) && wfSil(msil) && s.broadcast != nil && s.metrics != nil && metricsOK(s)
 //@            && s.metrics.matcherCompileIndexSilenceErrorsTotal != nil && s.logger != nil
 //@   assumes len(msil.Silence.MatcherSets) > 0 ==> msil.Silence.MatcherSets[0] != nil
-//@   ensures [err] result2 != nil ==> !result0 && !result1 && dom(s.st) == old(dom(s.st)) && vals(s.st) == old(vals(s.st)) && s.version == old(s.version) && s.vi == old(s.vi) && !called("broadcast")
+//@   ensures [err] result2 != nil ==> !result0 && !result1 && dom(s.st) == old(dom(s.st)) && vals(s.st) == old(vals(s.st)) && s.version == old(s.version) && s.vi == old(s.vi)
+//@   ensures [err-no-gossip] result2 != nil ==> !called("broadcast")
 //@   ensures [changed] result2 == nil ==> result0 == old(sAccepts(s.st, msil, now)) && result1 == (result0 && !old(msil.Silence.Id in s.st))
 //@   ensures [stored] result2 == nil && result0 ==> dom(s.st) == setadd(old(dom(s.st)), old(msil.Silence.Id)) && vals(s.st) == upd(old(vals(s.st)), old(msil.Silence.Id), msil)
 //@   ensures [unchanged] result2 == nil && !result0 ==> dom(s.st) == old(dom(s.st)) && vals(s.st) == old(vals(s.st))
@@ -198,8 +199,11 @@ package silence
 //@   ensures [kept] old(id in s.st) ==> id in s.st
 //@   ensures [takes-effect] old(id in s.st) && result == nil && old(updAt(s, id)) < ret("nowUTC")
 //@             ==> tsT(s.st[id].Silence.EndsAt) <= ret("nowUTC") && tsT(s.st[id].Silence.StartsAt) <= ret("nowUTC")
+//@   ensures [takes-effect-by-return] old(id in s.st) && result == nil && old(updAt(s, id)) < old(clock())
+//@             ==> tsT(s.st[id].Silence.EndsAt) <= clock() && tsT(s.st[id].Silence.StartsAt) <= clock()
 //@   ensures [history] old(id in s.st) && result == nil ==> s.st[id].Silence.Id == id && s.st[id].Silence.MatcherSets == old(s.st[id].Silence.MatcherSets)
-//@             && (let n = ret("nowUTC") in old(stateAt(s.st[id].Silence, n)) == SilenceStateActive ==> s.st[id].Silence.StartsAt == old(s.st[id].Silence.StartsAt))
+//@   ensures [history-start] old(id in s.st) && result == nil ==>
+//@             (let n = ret("nowUTC") in old(stateAt(s.st[id].Silence, n)) == SilenceStateActive ==> s.st[id].Silence.StartsAt == old(s.st[id].Silence.StartsAt))
 //@   ensures [inv] storeInv(s)
 //@   assigns s.st[*], s.mi[*], s.vi, s.vi[*], s.version
 //@   noeffect broadcast
@@ -233,7 +237,7 @@ package silence
 //@   ensures [old-kept] forall k string :: old(k in s.st) ==> k in s.st
 //@   ensures [replaced-is-expired] let id0 = old(sil.Id) in let n2 = ret("nowUTC") in
 //@             result == nil && !(called("canUpdate") && ret("canUpdate")) && old(id0 in s.st) && old(stateAt(s.st[id0].Silence, n2)) != SilenceStateExpired && old(updAt(s, id0)) < n2
-//@             ==> tsT(s.st[id0].Silence.EndsAt) <= n2 && s.st[id0].Silence.Id == id0 && s.st[id0].Silence.MatcherSets == old(s.st[id0].Silence.MatcherSets)
+//@             ==> tsT(s.st[id0].Silence.EndsAt) <= clock() && s.st[id0].Silence.Id == id0 && s.st[id0].Silence.MatcherSets == old(s.st[id0].Silence.MatcherSets)
 //@   ensures [max-silences] result == nil && called("MaxSilences") && ret("MaxSilences") > 0 && !(called("canUpdate") && ret("canUpdate")) ==> len(s.st) <= ret("MaxSilences")
 //@   ensures [inv] storeInv(s)
 //@   assigns s.st[*], s.mi[*], s.vi, s.vi[*], s.version, sil.*
